@@ -15,7 +15,7 @@ def pcVal (env : Env) (p : PC) : Val :=
   | .err k => .error k
   | .formula c _ =>
     match c with
-    | .num x => .float x
+    | .num x => fmtF64 x env.fmts[p.xf]? env.is1904
     | .str _ s _ => .str s
     | .bool b => .bool b
     | .err k => .error k
@@ -141,7 +141,7 @@ theorem runRecs_phys (env : Env) (st : St) (p : PC) (h : PCok env p) :
       simp only [cachedBytes]
       rw [show (cellHdr p ++ (special 2 (errCode k) ++ (le16 0 ++ (le32 0 ++ (le16 rgce.length ++ rgce))))) =
         fmlaData p (special 2 (errCode k)) rgce from rfl, h1]
-      simp [parseErr_errCode]
+      simp [parseErr_errCode, typeCached]
     | blank =>
       refine ⟨(p.row, p.col), runRecs_one _ _ _ _ ?_⟩
       have h1 := step_formula_special env st p 3 0 rgce hg' hr hc' hx (by omega) (by omega)
@@ -443,5 +443,158 @@ theorem decode_substream (env : Env) (ps : List PC) (hok : ∀ p ∈ ps, PCok en
       (bofRec :: (chunk ps).flatMap groupRecs).map Item.record ++ [Item.record eofRec] by simp]
   rw [sheetLoop_records env _ _ _ _ hne hrun]
   simp [sheetLoop, eofRec]
+
+/-! ### from the logical sheet to the planned cells -/
+
+def lvalOk : LVal → Prop
+  | .num x => x < 18446744073709551616
+  | .str s => textOk s
+  | _ => True
+
+/-- a logical cell inside the BIFF8 grid with a representable value -/
+def cellOk (c : LCell) : Prop := c.row < 65536 ∧ c.col < 256 ∧ lvalOk c.val
+
+/-- the XF carries no date/time format (so numbers read as Int/Float, C10 covers the rest) -/
+def plainFmt (env : Env) (xf : Nat) : Prop := env.fmts[xf]? = none ∨ env.fmts[xf]? = some Fmt.other
+
+theorem filter_ignorable (l : List Rec) : ∀ r ∈ l.filter ignorable, ignorable r = true := by
+  intro r hr; exact (List.mem_filter.mp hr).2
+
+theorem planCell_ok (env : Env) (c : LCell) (l : Lay) (h : cellOk c) : PCok env (planCell env c l) := by
+  obtain ⟨hr, hc, hv⟩ := h
+  refine ⟨hr, hc, Nat.mod_lt _ (by decide), filter_ignorable _, ?_⟩
+  simp only [planCell]
+  cases hval : c.val with
+  | num x =>
+    rw [hval] at hv; simp only [lvalOk] at hv
+    cases henc : l.enc with
+    | num e =>
+      cases e with
+      | number => simp [choose]; exact hv
+      | rk w =>
+        by_cases hcond : w < 4294967296 ∧ numBits env.ops (rkSpec env.ops w) = x
+        · simp only [choose, if_pos hcond]; exact hcond.1
+        · simp only [choose, if_neg hcond]; exact hv
+    | label w => simp [choose]; exact hv
+    | labelSst i => simp [choose]; exact hv
+    | boolerr => simp [choose]; exact hv
+    | formula rgce w b b3 =>
+      by_cases hcond : x / 281474976710656 = 65535
+      · simp only [choose, if_pos hcond]; exact hv
+      · simp only [choose, if_neg hcond]
+        exact ⟨by simp [List.length_take]; omega, hv, hcond⟩
+  | str s =>
+    rw [hval] at hv; simp only [lvalOk] at hv
+    cases henc : l.enc with
+    | num e => simp [choose]; exact hv
+    | label w => simp [choose]; exact hv
+    | labelSst i =>
+      by_cases hcond : i < 4294967296 ∧ env.strings[i]? = some s ∧ s ≠ []
+      · simp only [choose, if_pos hcond]; exact ⟨hcond.1, s, hcond.2.1, hcond.2.2⟩
+      · simp only [choose, if_neg hcond]; exact hv
+    | boolerr => simp [choose]; exact hv
+    | formula rgce w b b3 =>
+      by_cases hcond : s = [] ∧ b3 = true
+      · simp only [choose, if_pos hcond]
+        exact ⟨by simp [List.length_take]; omega, trivial⟩
+      · simp only [choose, if_neg hcond]
+        exact ⟨by simp [List.length_take]; omega, hv, filter_ignorable _⟩
+  | bool b =>
+    cases henc : l.enc with
+    | formula rgce w bt b3 => simp only [choose]; exact ⟨by simp [List.length_take]; omega, trivial⟩
+    | num e => simp [choose]
+    | label w => simp [choose]
+    | labelSst i => simp [choose]
+    | boolerr => simp [choose]
+  | err k =>
+    cases henc : l.enc with
+    | formula rgce w bt b3 => simp only [choose]; exact ⟨by simp [List.length_take]; omega, trivial⟩
+    | num e => simp [choose]
+    | label w => simp [choose]
+    | labelSst i => simp [choose]
+    | boolerr => simp [choose]
+
+theorem fmtF64_plain (env : Env) (xf x : Nat) (h : plainFmt env xf) : fmtF64 x env.fmts[xf]? env.is1904 = .float x := by
+  rcases h with h | h <;> simp [fmtF64, h]
+
+theorem fmtNum_plain (env : Env) (xf : Nat) (n : Num) (h : plainFmt env xf) :
+    numView env.ops (fmtNum env.ops n env.fmts[xf]? env.is1904) = .float (numBits env.ops n) := by
+  cases n <;> rcases h with h | h <;> simp [fmtNum, fmtI64, fmtF64, h, numView, numBits]
+
+/-- what the reader shows for a planned cell is the logical value (an `Int` counting as its double) -/
+theorem planCell_val (env : Env) (c : LCell) (l : Lay) (hf : plainFmt env (l.xf % 65536)) :
+    numView env.ops (pcVal env (planCell env c l)) = c.val.toVal := by
+  simp only [planCell, pcVal]
+  cases hval : c.val with
+  | num x =>
+    cases henc : l.enc with
+    | num e =>
+      cases e with
+      | number => simp [choose, fmtF64_plain env _ x hf, numView, LVal.toVal]
+      | rk w =>
+        by_cases hcond : w < 4294967296 ∧ numBits env.ops (rkSpec env.ops w) = x
+        · simp only [choose, if_pos hcond]
+          rw [fmtNum_plain env _ _ hf, rkNum_eq_rkSpec, hcond.2]; rfl
+        · simp [choose, hcond, fmtF64_plain env _ x hf, numView, LVal.toVal]
+    | label w => simp [choose, fmtF64_plain env _ x hf, numView, LVal.toVal]
+    | labelSst i => simp [choose, fmtF64_plain env _ x hf, numView, LVal.toVal]
+    | boolerr => simp [choose, fmtF64_plain env _ x hf, numView, LVal.toVal]
+    | formula rgce w b b3 =>
+      by_cases hcond : x / 281474976710656 = 65535
+      · simp [choose, hcond, fmtF64_plain env _ x hf, numView, LVal.toVal]
+      · simp [choose, hcond, fmtF64_plain env _ x hf, numView, LVal.toVal]
+  | str s =>
+    cases henc : l.enc with
+    | num e => simp [choose, numView, LVal.toVal]
+    | label w => simp [choose, numView, LVal.toVal]
+    | labelSst i =>
+      by_cases hcond : i < 4294967296 ∧ env.strings[i]? = some s ∧ s ≠ []
+      · simp [choose, hcond, numView, LVal.toVal]
+      · simp [choose, hcond, numView, LVal.toVal]
+    | boolerr => simp [choose, numView, LVal.toVal]
+    | formula rgce w b b3 =>
+      by_cases hcond : s = [] ∧ b3 = true
+      · simp [choose, hcond, numView, LVal.toVal]
+      · simp [choose, hcond, numView, LVal.toVal]
+  | bool b => cases henc : l.enc <;> simp [choose, numView, LVal.toVal]
+  | err k => cases henc : l.enc <;> simp [choose, numView, LVal.toVal]
+
+/-- every planned cell is `planCell` of a cell of the sheet under a layout entry (the default one beyond the list) -/
+theorem plan_mem (env : Env) : ∀ (S : List LCell) (lays : List Lay), ∀ p ∈ plan env S lays,
+    ∃ c ∈ S, ∃ l, (l ∈ lays ∨ l = default) ∧ p = planCell env c l
+  | [], _, p, hp => by simp [plan] at hp
+  | c :: cs, [], p, hp => by
+    simp only [plan, List.mem_cons] at hp
+    rcases hp with rfl | hp
+    · exact ⟨c, by simp, default, Or.inr rfl, rfl⟩
+    · obtain ⟨c', hc', l, hl, e⟩ := plan_mem env cs [] p hp
+      exact ⟨c', by simp [hc'], l, hl, e⟩
+  | c :: cs, l :: ls, p, hp => by
+    simp only [plan, List.mem_cons] at hp
+    rcases hp with rfl | hp
+    · exact ⟨c, by simp, l, Or.inl (by simp), rfl⟩
+    · obtain ⟨c', hc', l', hl', e⟩ := plan_mem env cs ls p hp
+      refine ⟨c', by simp [hc'], l', ?_, e⟩
+      rcases hl' with h | h
+      · exact Or.inl (by simp [h])
+      · exact Or.inr h
+
+theorem plan_pos (env : Env) : ∀ (S : List LCell) (lays : List Lay),
+    (plan env S lays).map (fun p => (p.row, p.col)) = S.map (fun c => (c.row, c.col))
+  | [], _ => by simp [plan]
+  | c :: cs, [] => by simp [plan, planCell, plan_pos env cs []]
+  | c :: cs, l :: ls => by simp [plan, planCell, plan_pos env cs ls]
+
+theorem pairwise_inj : ∀ (S : List LCell), S.Pairwise cellLt → ∀ a ∈ S, ∀ b ∈ S,
+    a.row = b.row → a.col = b.col → a = b
+  | [], _, a, ha, _, _, _, _ => by simp at ha
+  | x :: xs, hp, a, ha, b, hb, hr, hc => by
+    have hp' := List.pairwise_cons.mp hp
+    simp only [List.mem_cons] at ha hb
+    rcases ha with rfl | ha <;> rcases hb with rfl | hb
+    · rfl
+    · have := hp'.1 b hb; unfold cellLt at this; omega
+    · have := hp'.1 a ha; unfold cellLt at this; omega
+    · exact pairwise_inj xs hp'.2 a ha b hb hr hc
 
 end BiffCells
